@@ -342,6 +342,28 @@ def run_crit(cfg):
             # (a node whose rows all have weight zero has no N_t to divide by: scikit-learn never evaluates one)
             if sx.is_sym(W) or W != 0:
                 e.prove_eq(imp * wsum, W * ip - Wr * ir - Wl * il, f"{kind}/impurity_improvement")
+            # the SAME criterion object initialised again on a later range (what a tree builder does node after node)
+            # == a fresh one initialised there (stale cumulated sums)
+            if e0 - s0 >= 2 and wmode != "symbolic":
+                s2 = s0 + 1
+                L._test_criterion_init(crit, y2, w, wsum, samples, s2, e0)
+                again = L._test_criterion_node_impurity(crit), L._test_criterion_node_value(crit)
+                c3 = make(L, getattr(L, CLS[kind]), kind, n, X)
+                L._test_criterion_init(c3, y2, w, wsum, samples, s2, e0)
+                fresh = L._test_criterion_node_impurity(c3), L._test_criterion_node_value(c3)
+                e.prove_eq(again[0], fresh[0], f"{kind}/initialised-again-on-a-later-range==fresh(impurity)")
+                e.prove_eq(again[1], fresh[1], f"{kind}/initialised-again-on-a-later-range==fresh(value)")
+                if p0 > s2:
+                    L._test_criterion_update(crit, p0)
+                    L._test_criterion_update(c3, p0)
+                    la, ra = L._test_criterion_node_impurity_children(crit)
+                    lf, rf = L._test_criterion_node_impurity_children(c3)
+                    e.prove_eq(la, lf, f"{kind}/initialised-again-on-a-later-range==fresh(children)")
+                    e.prove_eq(ra, rf, f"{kind}/initialised-again-on-a-later-range==fresh(children)")
+                # back to the state the next block expects
+                L._test_criterion_init(crit, y2, w, wsum, samples, s0, e0)
+                if p0 != s0:
+                    L._test_criterion_update(crit, p0)
             # moved by update/reset == initialised fresh (stale buffers)
             if cfg.get("moves"):
                 c2 = make(L, getattr(L, CLS[kind]), kind, n, X)
@@ -515,10 +537,14 @@ def run_py(cfg):
             X = sx.cur().reals("X", n, d)
             y = sx.cur().reals("y", n)
             Xq = sx.cur().reals("Q", 2, d)
+            if cfg.get("int_query"):
+                Xq = sx.int_array([[sx.cur().int(f"Q_{i}_{j}", -9, 9) for j in range(d)] for i in range(2)])  # a grid of counts
         else:
             X = numpy.array([[float(C.inputs.get(f"X_{i}_0", i))] for i in range(n)], dtype=object)
             y = numpy.array([float(C.inputs.get(f"y_{i}", 2 * i)) for i in range(n)], dtype=object)
             Xq = numpy.array([[1.5], [-2.0]], dtype=object)
+            if cfg.get("int_query"):
+                Xq = numpy.array([[int(C.inputs.get("Q_0_0", 3))], [int(C.inputs.get("Q_1_0", -2))]], dtype=numpy.int64)
         qleaf = [C.choice(f"qleaf{i}", nleaves) for i in range(2)]
         seen = []
 
@@ -610,22 +636,21 @@ def run_py(cfg):
     return scenario
 
 
-class _PYNP:
+class _PYNP(sx.Conversions):
     def __getattr__(self, k):
         return getattr(numpy, k)
 
     def empty(self, shape, dtype=None, **kw):
-        return numpy.empty(shape, dtype=object).view(sx.SArr)
+        return sx.typed_empty(shape, dtype)
 
     def zeros(self, shape, dtype=None, **kw):
-        a = numpy.empty(shape, dtype=object)
-        a[...] = 0
-        return a.view(sx.SArr)
+        return sx.typed_empty(shape, dtype, fill=0)
 
     def ones(self, shape, dtype=None, **kw):
-        a = numpy.empty(shape, dtype=object)
-        a[...] = 1
-        return a.view(sx.SArr)
+        return sx.typed_empty(shape, dtype, fill=1)
+
+    def full(self, shape, fill_value, dtype=None, **kw):
+        return sx.typed_empty(shape, dtype, fill=fill_value)
 
 
 def replay_py(cfg, inputs, label):
@@ -697,6 +722,7 @@ def configs(tier):
             out.append(dict(kind="crit", kind_c="linear", n=4, d=2, order=[2, 0, 3, 1], triple=list(tr), wmode="unit"))
     out.append(dict(kind="pyside", n=3 if tier == "quick" else 4, leaves=2))
     out.append(dict(kind="pyside", n=3, leaves=3, refit_layout=True))
+    out.append(dict(kind="pyside", n=3, leaves=2, int_query=True))
     return out
 
 
